@@ -79,7 +79,7 @@ def fmtRead (r : Data × Option RErr) : String :=
   rd.readold <chunks>              -> same, unrepaired cookie read (replays of F7 only)
   rec.pack <rec> ...               -> ok <hex>                              (ExchangeMsg.Pack)
   srv.msg <iphex> <port> <n> <clen> -> ok <hex> | err no-cookie             (newNTSKEMsg, cookie bodies zeroed)
-  f.new                            -> ok
+  f.new [quic] [host=<addr>]       -> ok
   f.fetch dial=<b> alpn=<hex> host=<hex> stream=<chunks>
                                    -> ok exch=<b> <data> keys=.. pool=<chunks> | err <class> exch=<b> pool=<chunks>
   f.fetchold …                     -> the same with the unrepaired exchangeKeys (replays of F8 only)
@@ -148,8 +148,10 @@ def stepD (st : Data) (idx : Nat) (toks : List String) : Data × String :=
 /-- state: cached data of the fetcher, number of f.fetch ops in this history -/
 def step (st : Data × Nat) (toks : List String) : (Data × Nat) × String :=
   match toks with
-  | ["f.new"] => (({}, 0), "ok")
-  | ["f.new", "quic"] => (({}, 0), "ok")
+  | "f.new" :: rest =>
+    -- f.new [quic] [host=<address>]: transport and key-exchange host arrive with each f.fetch
+    if rest.length ≤ 2 ∧ rest.all (fun t => t = "quic" || t.startsWith "host=") then (({}, 0), "ok")
+    else (st, "bad-op")
   | op :: _ =>
     let idx := if op = "f.fetch" ∨ op = "f.fetchold" then st.2 + 1 else st.2
     let (d, o) := stepD st.1 idx toks
